@@ -13,7 +13,9 @@ COMPONENTS = {
 ASSUMPTIONS = [
     'the fake HTTP / WebSocket libraries raise what the real ones raise '
     '(documented per class in dsim/clientworld.py)',
-    'pre-emption only at yield points (coop granularity); asyncio ready '
+    'pre-emption at yield points in every run; in about a quarter of the '
+    'runs that involve threaded code also between source lines of engineio '
+    'functions (sys.settrace; realisable under OS threads); asyncio ready '
     'queue kept FIFO',
     'TCP never reorders or duplicates inside one connection']
 LEVEL_NOTE = ('Trusted: sim primitives, the fake requests / websocket-client '
@@ -22,4 +24,4 @@ LEVEL_NOTE = ('Trusted: sim primitives, the fake requests / websocket-client '
               'the oracle\'s cause model.')
 TECHNIQUE = ('deterministic simulation with fault injection: seeded '
              'schedule/fault/peer-script search + history oracle')
-GRANULARITY = 'coop (yield points)'
+GRANULARITY = 'coop (yield points) + line (share of the threaded runs)'
